@@ -44,6 +44,22 @@ type xUnit struct {
 	// Ignore: statements (by printed text) that are left out: lock handling (`r.RLock()`, `defer r.RUnlock()`): the
 	// translation is of the sequential body; that it runs atomically is the model's assumption.
 	Ignore []string
+	// Funcs: pure functions the code calls through values outside the subset (an interface method such as
+	// t.server.protocol.ParsePackage): callee text -> a function parameter of the given Gallina type, applied to the
+	// translated arguments; several results are a tuple
+	Funcs map[string]xOracle
+	// Reads: pure read paths (identifiers and member selections only, e.g. msg.Resp.IRet) through values outside the
+	// subset: each becomes a parameter of the given Gallina type and may be used any number of times. The translator
+	// checks that the statements neither assign to such a path or a prefix of it nor hand a prefix of it to a call.
+	Reads map[string]xOracle
+	// ErrVals: the error results are values, not just nil / non-nil: the name of the package's struct type T whose
+	// pointer is returned as an error. error is (go_error T): nil = GoErrNil, errors.New(s) = GoErrNew s, &T{..} = GoErrVal {|..|}
+	ErrVals string
+	// StrMaps: a map with string keys is the list of its insertions in order (m[k] = v appends (k, v); a later binding of
+	// a key overrides an earlier one for any reader of the list); lookups, len and iteration stay outside the subset
+	StrMaps bool
+	// Deep: the statement slice From..To is looked for in nested statement lists as well (it must be unique)
+	Deep bool
 	// Methods: pure methods without arguments of values of the subset (e.String()) that the code calls: each becomes a
 	// function parameter of the given Gallina type, applied to the translated receiver
 	Methods map[string]xOracle
@@ -67,7 +83,16 @@ type xOracle struct{ Name, Type string }
 type xWriter struct {
 	Prims map[string]xPrim  // primitive appends: GoSem function of the selected arguments; they return a nil error
 	Calls map[string]string // methods translated as units of their own: callee text -> Coq name
+	Type  string            // Gallina type of what is accumulated ("list N" when empty: the bytes written)
 }
+
+func (w *xWriter) typ() string {
+	if w.Type != "" {
+		return w.Type
+	}
+	return "list N"
+}
+
 type xPrim struct {
 	Coq  string
 	Args []int
@@ -101,12 +126,14 @@ type xl struct {
 	tmp      int
 	// state mode
 	xpkg       *xPkg
+	ld         *xLoader
 	units      []xUnit
 	ptrParam   map[types.Object]bool // pointer parameters: in/out values
 	ptrOrder   []*types.Var
 	isParam    map[*types.Var]bool
 	paramNames []string     // Gallina names of the unit's parameters after fuel, in order (rd last)
 	namedRes   []*types.Var // named results (variables; a bare return yields them)
+	loopCont   bool         // the enclosing `for { }` is a go_loop: continue is the next round
 	inLoop     bool         // inside the `for { }` of a fuel unit
 	loopState  string
 	freshDone  map[*types.Var]bool
@@ -118,7 +145,7 @@ type xl struct {
 
 // identifiers the generated text uses itself; a Go variable of such a name gets a trailing underscore
 var xReserved = strings.Fields(`ctl Next Return Panic bindc go_call wrapU wrapS go_len go_nth go_in_range go_slice
- go_slice_ok go_bytes_eqb go_be_u16 go_be_u32 go_be_u64 go_emit_u8 go_emit_u16 go_emit_u32 go_emit_u64 go_emit_bytes go_range go_count go_map_get go_map_set go_make go_iter rd fuel inl inr go_atomic_cas32 go_atomic_add32 go_search go_search_ok Some None go_f32_to_f64 go_bytes_ltb go_sort_by go_count_down a__ b__
+ go_slice_ok go_bytes_eqb go_be_u16 go_be_u32 go_be_u64 go_emit_u8 go_emit_u16 go_emit_u32 go_emit_u64 go_emit_bytes go_range go_count go_map_get go_map_set go_make go_iter rd fuel inl inr go_atomic_cas32 go_atomic_add32 go_search go_search_ok Some None go_f32_to_f64 go_bytes_ltb go_sort_by go_count_down a__ b__ go_loop go_copy go_deliver go_smap_put
  andb orb negb implb true false tt nil cons list unit bool Z N nat fst snd pair Bool eqb
  fun let in if then else match with end as return forall exists fix cofix Type Prop Set struct where at using for IF
  Definition Fixpoint Record Lemma Theorem out st`)
@@ -186,6 +213,19 @@ func xIsBytes(t types.Type) bool {
 }
 func xIsError(t types.Type) bool { return t.String() == "error" }
 
+// errRecord: the Record of the struct type named by the unit's ErrVals
+func (x *xl) errRecord(n ast.Node) string {
+	tn, ok := x.pkg.Scope().Lookup(x.unit.ErrVals).(*types.TypeName)
+	if !ok {
+		x.fail(n, "error struct type %s not found in the package", x.unit.ErrVals)
+	}
+	nm, ok := tn.Type().(*types.Named)
+	if !ok {
+		x.fail(n, "%s is not a named struct type", x.unit.ErrVals)
+	}
+	return x.record(n, nm)
+}
+
 func (x *xl) typeOf(e ast.Expr) types.Type {
 	t := x.info.TypeOf(e)
 	if t == nil || t == types.Typ[types.Invalid] {
@@ -222,6 +262,9 @@ func (x *xl) coqType(n ast.Node, t types.Type) string {
 	case xIsBytes(t):
 		return "(list N)"
 	case xIsError(t):
+		if x.unit.ErrVals != "" {
+			return "(go_error " + x.errRecord(n) + ")"
+		}
 		return "bool"
 	}
 	if s, ok := t.Underlying().(*types.Slice); ok {
@@ -230,6 +273,9 @@ func (x *xl) coqType(n ast.Node, t types.Type) string {
 	if m, ok := t.Underlying().(*types.Map); ok { // integer-keyed maps: association lists (iteration is outside the subset)
 		if _, _, ok := xIntType(m.Key()); ok {
 			return "(list (Z * " + x.coqType(n, m.Elem()) + "))"
+		}
+		if x.unit != nil && x.unit.StrMaps && xIsBytes(m.Key()) {
+			return "(list ((list N) * " + x.coqType(n, m.Elem()) + "))"
 		}
 	}
 	if nm, ok := t.(*types.Named); ok {
@@ -246,12 +292,51 @@ func (x *xl) record(n ast.Node, nm *types.Named) string {
 	if _, ok := x.records[name]; !ok {
 		x.records[name] = nm
 		st := nm.Underlying().(*types.Struct)
-		for i := 0; i < st.NumFields(); i++ { // field types first (nested records are emitted before their user)
-			x.coqType(n, st.Field(i).Type())
+		for _, f := range x.recFields(st) { // field types first (nested records are emitted before their user)
+			x.coqType(n, f.Type())
 		}
 		*x.recOrd = append(*x.recOrd, name)
 	}
 	return name
+}
+
+// recFields: the fields of a struct that the generated Record has: those whose type is in the subset (a field of
+// another type - a map with string keys, a channel - is left out; any access to it is rejected)
+func (x *xl) recFields(st *types.Struct) []*types.Var {
+	var fs []*types.Var
+	for i := 0; i < st.NumFields(); i++ {
+		if x.translatable(st.Field(i).Type()) {
+			fs = append(fs, st.Field(i))
+		}
+	}
+	return fs
+}
+
+// structVar: e is v.F for a variable v of a named struct type (not a pointer): v and the field
+func (x *xl) structVar(e ast.Expr) (*types.Var, *types.Var) {
+	se, ok := e.(*ast.SelectorExpr)
+	if !ok {
+		return nil, nil
+	}
+	id, ok := se.X.(*ast.Ident)
+	if !ok {
+		return nil, nil
+	}
+	v, ok := x.info.ObjectOf(id).(*types.Var)
+	if !ok || types.Object(v) == x.recv {
+		return nil, nil
+	}
+	nm, ok := v.Type().(*types.Named)
+	if !ok {
+		return nil, nil
+	}
+	if _, ok := nm.Underlying().(*types.Struct); !ok {
+		return nil, nil
+	}
+	if sel, ok := x.info.Selections[se]; ok && sel.Kind() == types.FieldVal && len(sel.Index()) == 1 {
+		return v, sel.Obj().(*types.Var)
+	}
+	return nil, nil
 }
 
 // translatable: does the subset have values of type t?
@@ -275,6 +360,9 @@ func (x *xl) zero(n ast.Node, t types.Type) string {
 	if xIsFloat(t) != 0 {
 		return "0"
 	}
+	if xIsError(t) && x.unit.ErrVals != "" {
+		return "(@GoErrNil " + x.errRecord(n) + ")"
+	}
 	switch {
 	case xIsBool(t), xIsError(t):
 		return "false"
@@ -288,8 +376,8 @@ func (x *xl) zero(n ast.Node, t types.Type) string {
 		if st, ok := nm.Underlying().(*types.Struct); ok {
 			r := x.record(n, nm)
 			var fs []string
-			for i := 0; i < st.NumFields(); i++ {
-				fs = append(fs, x.zero(n, st.Field(i).Type()))
+			for _, f := range x.recFields(st) {
+				fs = append(fs, x.zero(n, f.Type()))
 			}
 			return "(Build_" + r + " " + strings.Join(fs, " ") + ")"
 		}
@@ -342,6 +430,9 @@ func (x *xl) lvalue(e ast.Expr) *types.Var {
 	if f := x.field(e); f != nil {
 		return f
 	}
+	if v, _ := x.structVar(e); v != nil { // v.F = e sets the struct variable v
+		return v
+	}
 	if se, ok := e.(*ast.StarExpr); ok { // *p = v for a pointer parameter
 		if id, isId := se.X.(*ast.Ident); isId && x.ptrParam[x.info.ObjectOf(id)] {
 			return x.info.ObjectOf(id).(*types.Var)
@@ -349,6 +440,9 @@ func (x *xl) lvalue(e ast.Expr) *types.Var {
 	}
 	if ie, ok := e.(*ast.IndexExpr); ok { // m[k] = v sets the map variable
 		if _, isMap := x.typeOf(ie.X).Underlying().(*types.Map); isMap {
+			if f := x.field(ie.X); f != nil { // a map field of the receiver (receiver-fields mode)
+				return f
+			}
 			if id, isId := ie.X.(*ast.Ident); isId {
 				if v, isVar := x.info.ObjectOf(id).(*types.Var); isVar {
 					return v
@@ -482,6 +576,21 @@ func (x *xl) expr(e ast.Expr, g *xGuards) string {
 		x.oracleAt[o.Name] = e
 		return o.Name
 	}
+	if o, ok := x.unit.Reads[x.src(e)]; ok {
+		return o.Name
+	}
+	if x.unit.ErrVals != "" { // error values: errors.New(s), &T{..}
+		if c, ok := e.(*ast.CallExpr); ok && x.src(c.Fun) == "errors.New" && len(c.Args) == 1 {
+			return "(@GoErrNew " + x.errRecord(e) + " " + x.expr(c.Args[0], g) + ")"
+		}
+		if u, ok := e.(*ast.UnaryExpr); ok && u.Op == token.AND {
+			if cl, ok := u.X.(*ast.CompositeLit); ok {
+				if nm, ok := x.info.TypeOf(cl).(*types.Named); ok && nm.Obj().Name() == x.unit.ErrVals && nm.Obj().Pkg() == x.pkg {
+					return "(GoErrVal " + x.expr(cl, g) + ")"
+				}
+			}
+		}
+	}
 	if f := x.field(e); f != nil {
 		if n, ok := x.names[f]; ok {
 			return n
@@ -542,6 +651,26 @@ func (x *xl) expr(e ast.Expr, g *xGuards) string {
 		}
 		return x.varName(e)
 	case *ast.UnaryExpr:
+		if e.Op == token.NOT { // normalisation: the negation of an integer comparison is the opposite comparison, !!c is c
+			inner := xUnparen(e.X)
+			if u, ok := inner.(*ast.UnaryExpr); ok && u.Op == token.NOT {
+				return x.expr(u.X, g)
+			}
+			if b, ok := inner.(*ast.BinaryExpr); ok {
+				opp := map[token.Token]token.Token{token.LSS: token.GEQ, token.GEQ: token.LSS, token.GTR: token.LEQ, token.LEQ: token.GTR, token.EQL: token.NEQ, token.NEQ: token.EQL}
+				if o, isCmp := opp[b.Op]; isCmp {
+					t := x.info.TypeOf(b.X)
+					if tv := x.info.Types[b.X]; tv.Value != nil {
+						t = x.info.TypeOf(b.Y)
+					}
+					if _, _, isInt := xIntType(t); isInt && t != nil {
+						nb := *b
+						nb.Op = o
+						return x.binary(&nb, g)
+					}
+				}
+			}
+		}
 		a := x.expr(e.X, g)
 		t := x.typeOf(e)
 		switch e.Op {
@@ -561,6 +690,9 @@ func (x *xl) expr(e ast.Expr, g *xGuards) string {
 	case *ast.IndexExpr:
 		t := x.typeOf(e.X)
 		if m, ok := t.Underlying().(*types.Map); ok {
+			if xIsBytes(m.Key()) {
+				x.fail(e, "lookup in a map with string keys is outside the subset")
+			}
 			return "(go_map_get " + x.mapVar(e) + " " + x.expr(e.Index, g) + " " + x.zero(e, m.Elem()) + ")"
 		}
 		l, i := x.expr(e.X, g), x.expr(e.Index, g)
@@ -591,6 +723,9 @@ func (x *xl) expr(e ast.Expr, g *xGuards) string {
 		if sel, ok := x.info.Selections[e]; ok && sel.Kind() == types.FieldVal && len(sel.Index()) == 1 {
 			if nm, ok := sel.Recv().(*types.Named); ok {
 				if _, ok := nm.Underlying().(*types.Struct); ok {
+					if !x.translatable(sel.Obj().Type()) {
+						x.fail(e, "field %s has a type outside the subset", x.src(e))
+					}
 					return "(" + x.record(e, nm) + "_" + e.Sel.Name + " " + x.expr(e.X, g) + ")"
 				}
 			}
@@ -602,9 +737,83 @@ func (x *xl) expr(e ast.Expr, g *xGuards) string {
 	return ""
 }
 
+// xUnparen: e without enclosing parentheses
+func xUnparen(e ast.Expr) ast.Expr {
+	for {
+		p, ok := e.(*ast.ParenExpr)
+		if !ok {
+			return e
+		}
+		e = p.X
+	}
+}
+
+// chain: the operands of a chain a op b op c (op = && or ||), left to right
+func xChain(e ast.Expr, op token.Token) []ast.Expr {
+	if b, ok := xUnparen(e).(*ast.BinaryExpr); ok && b.Op == op {
+		return append(xChain(b.X, op), xChain(b.Y, op)...)
+	}
+	return []ast.Expr{e}
+}
+
+// pureOperand: an operand of && / || whose evaluation has no effect and cannot panic: no call other than len and
+// conversions, no oracle (a run-time check would show up as a guard; that is tested after translation)
+func (x *xl) pureOperand(e ast.Expr) bool {
+	pure := true
+	ast.Inspect(e, func(n ast.Node) bool {
+		if ex, ok := n.(ast.Expr); ok {
+			if _, isO := x.unit.Oracles[x.src(ex)]; isO {
+				pure = false
+			}
+		}
+		if c, ok := n.(*ast.CallExpr); ok {
+			if tv, isT := x.info.Types[c.Fun]; isT && tv.IsType() {
+				return true
+			}
+			if id, isId := c.Fun.(*ast.Ident); !isId || id.Name != "len" {
+				pure = false
+			}
+		}
+		return pure
+	})
+	return pure
+}
+
 func (x *xl) binary(e *ast.BinaryExpr, g *xGuards) string {
 	switch e.Op {
 	case token.LAND, token.LOR: // the right operand (and its checks) is evaluated only if needed
+		// normalisation: a chain whose operands are all free of effects and run-time checks has the same value in any
+		// order of its operands; it is emitted in a canonical order (sorted by the emitted text), so that reordering the
+		// conjuncts in the source does not change the translation
+		if ops := xChain(e, e.Op); len(ops) >= 2 {
+			var ts []string
+			ok := true
+			for _, o := range ops {
+				var go_ xGuards
+				if !x.pureOperand(o) {
+					ok = false
+					break
+				}
+				t := x.expr(o, &go_)
+				if len(go_) > 0 {
+					ok = false
+					break
+				}
+				ts = append(ts, t)
+			}
+			if ok {
+				sort.Strings(ts)
+				r := ts[len(ts)-1]
+				for i := len(ts) - 2; i >= 0; i-- {
+					if e.Op == token.LAND {
+						r = "(if " + ts[i] + " then " + r + " else false)"
+					} else {
+						r = "(if " + ts[i] + " then true else " + r + ")"
+					}
+				}
+				return r
+			}
+		}
 		a := x.expr(e.X, g)
 		var gr xGuards
 		b := x.expr(e.Y, &gr)
@@ -649,7 +858,10 @@ func (x *xl) compare(e *ast.BinaryExpr, t types.Type, a, b string) string {
 	switch {
 	case isInt:
 		switch e.Op {
-		case token.EQL, token.NEQ:
+		case token.EQL, token.NEQ: // normalisation: a constant operand is written on the right
+			if tv := x.info.Types[e.X]; tv.Value != nil && x.info.Types[e.Y].Value == nil {
+				a, b = b, a
+			}
 			r = "(" + a + " =? " + b + ")"
 		case token.LSS:
 			return "(" + a + " <? " + b + ")"
@@ -731,6 +943,13 @@ func (x *xl) arith(e *ast.BinaryExpr, a, b string, g *xGuards) string {
 func (x *xl) call(e *ast.CallExpr, g *xGuards) string {
 	if x.unit.Errs[x.src(e.Fun)] { // an error value that is not nil; its text is not modelled
 		return "true"
+	}
+	if f, ok := x.unit.Funcs[x.src(e.Fun)]; ok { // a declared pure function: a function parameter
+		as := []string{f.Name}
+		for _, a := range e.Args {
+			as = append(as, x.expr(a, g))
+		}
+		return "(" + strings.Join(as, " ") + ")"
 	}
 	if se, ok := e.Fun.(*ast.SelectorExpr); ok && len(e.Args) == 0 {
 		if m, ok := x.unit.Methods[se.Sel.Name]; ok { // a declared pure method: a function parameter
@@ -873,13 +1092,19 @@ func (x *xl) composite(e *ast.CompositeLit, g *xGuards) string {
 		}
 	}
 	var fs []string
-	for i := 0; i < st.NumFields(); i++ {
-		f := st.Field(i)
+	have := map[string]bool{}
+	for _, f := range x.recFields(st) {
+		have[f.Name()] = true
 		v, ok := vals[f.Name()]
 		if !ok {
 			v = x.zero(e, f.Type())
 		}
 		fs = append(fs, "\n      "+r+"_"+f.Name()+" := "+v)
+	}
+	for n := range vals {
+		if !have[n] {
+			x.fail(e, "field %s of %s has a type outside the subset", n, nm)
+		}
 	}
 	return "{|" + strings.Join(fs, ";") + " |}"
 }
@@ -966,6 +1191,10 @@ func (x *xl) fresh(v *types.Var, at ast.Node) {
 			}
 			x.fresh(w, at)
 			return true
+		case *ast.SliceExpr: // v = v[lo:hi]: no other slice comes to share the array
+			if id, isId := r.X.(*ast.Ident); isId && x.info.ObjectOf(id) == types.Object(v) && !r.Slice3 {
+				return true
+			}
 		case *ast.CallExpr:
 			if id, isId := r.Fun.(*ast.Ident); isId && len(r.Args) > 0 {
 				if a0, isId := r.Args[0].(*ast.Ident); id.Name == "append" && isId && x.info.ObjectOf(a0) == v {
@@ -1087,7 +1316,7 @@ func (x *xl) assigned(ss []ast.Stmt) []*types.Var {
 func (x *xl) state(n ast.Node, vs []*types.Var) (term, typ, bind string) {
 	var ns, ts []string
 	if x.unit.Writer != nil {
-		ns, ts = append(ns, "out"), append(ts, "(list N)")
+		ns, ts = append(ns, "out"), append(ts, "("+x.unit.Writer.typ()+")")
 	}
 	if x.unit.State != nil {
 		ns, ts = append(ns, "rd"), append(ts, x.unit.State.Type)
@@ -1135,6 +1364,31 @@ func xFalls(ss []ast.Stmt) bool {
 	return true
 }
 
+// xNegated: c is the text (negb X) for one term X: X
+func xNegated(c string) (string, bool) {
+	if !strings.HasPrefix(c, "(negb ") || !strings.HasSuffix(c, ")") {
+		return "", false
+	}
+	in := c[len("(negb ") : len(c)-1]
+	depth := 0
+	for i, r := range in {
+		switch r {
+		case '(':
+			depth++
+		case ')':
+			depth--
+			if depth < 0 {
+				return "", false
+			}
+		case ' ':
+			if depth == 0 && i > 0 { // two terms at the top level: (negb a) b ...
+				return "", false
+			}
+		}
+	}
+	return in, depth == 0
+}
+
 func xInd(d int) string { return "\n" + strings.Repeat("  ", d) }
 
 // block: the statements ss followed by the continuation k (a ctl term), at nesting depth d
@@ -1159,7 +1413,7 @@ func (x *xl) ret(vals []string) string {
 		v = "(" + strings.Join(vals, ", ") + ")"
 	}
 	if x.unit.Writer != nil {
-		return "Return (out, " + v + ")"
+		v = "(out, " + v + ")"
 	}
 	if x.unit.State != nil { // the state, the pointees of the pointer parameters, the results
 		all := []string{"rd"}
@@ -1253,6 +1507,12 @@ func (x *xl) stmt(s ast.Stmt, rest func() string, d int) string {
 		}
 		return xGuarded(g, x.ret(vs))
 	case *ast.BranchStmt:
+		if s.Tok == token.BREAK && s.Label == nil && x.inLoop && x.loopCont { // go_loop: break / continue / return are told apart
+			return "Return (inl (inl " + x.loopState + "))"
+		}
+		if s.Tok == token.CONTINUE && s.Label == nil && x.inLoop && x.loopCont {
+			return "Return (inl (inr " + x.loopState + "))"
+		}
 		if s.Tok == token.BREAK && s.Label == nil && x.inLoop {
 			return "Return (inl " + x.loopState + ")"
 		}
@@ -1290,6 +1550,17 @@ func (x *xl) stmt(s ast.Stmt, rest func() string, d int) string {
 		if inv := x.stCall(s.X, &g); inv != nil {
 			return x.stBind(s, inv, nil, false, g, rest, d)
 		}
+		if c, ok := s.X.(*ast.CallExpr); ok && x.src(c.Fun) == "copy" && len(c.Args) == 2 { // copy(v, s) into a variable that shares its array with nothing
+			if id, isId := c.Args[0].(*ast.Ident); isId {
+				if _, isB := x.info.ObjectOf(c.Fun.(*ast.Ident)).(*types.Builtin); isB {
+					lv := x.lvalue(id)
+					x.fresh(lv, s)
+					n := x.varName(id)
+					return xGuarded(g, "let "+n+" := go_copy "+n+" "+x.expr(c.Args[1], &g)+" in"+xInd(d)+rest())
+				}
+			}
+			x.fail(s, "copy is in the subset only as the statement copy(v, s) on a variable v")
+		}
 		if c, ok := s.X.(*ast.CallExpr); ok && x.src(c.Fun) == "sort.Slice" && len(c.Args) == 2 {
 			return x.sortSlice(s, c, rest, d)
 		}
@@ -1301,6 +1572,12 @@ func (x *xl) stmt(s ast.Stmt, rest func() string, d int) string {
 			}
 		}
 		x.fail(s, "expression statement %s is outside the subset", x.src(s))
+	case *ast.GoStmt: // go F(args) where F hands its argument over (a declared writer primitive): the hand-over is what is modelled
+		var g xGuards
+		if callee, prim, ok := x.writerCall(s.Call, &g); ok && prim != "" {
+			return x.effect(callee, prim, "_", g, rest(), d)
+		}
+		x.fail(s, "go statements are outside the subset")
 	case *ast.IncDecStmt:
 		if f, ok := x.stField(s.X); ok && f.Set != "" {
 			op := " + 1"
@@ -1331,14 +1608,18 @@ func (x *xl) stmt(s ast.Stmt, rest func() string, d int) string {
 		if s.Else != nil {
 			els = []ast.Stmt{s.Else}
 		}
-		vs := x.assigned(append(append([]ast.Stmt{}, s.Body.List...), els...))
-		if len(vs) == 0 && x.unit.Writer == nil && x.unit.State == nil && !(xFalls(s.Body.List) && xFalls(els)) {
+		thn := s.Body.List
+		vs := x.assigned(append(append([]ast.Stmt{}, thn...), els...))
+		if in, ok := xNegated(c); ok { // normalisation: `if !c {A} else {B}` is emitted as `if c {B} else {A}`
+			c, thn, els = in, els, thn
+		}
+		if len(vs) == 0 && x.unit.Writer == nil && x.unit.State == nil && !(xFalls(thn) && xFalls(els)) {
 			// at most one branch continues: no merge needed, the continuation goes into that branch
 			k := rest()
-			return xGuarded(g, "if "+c+xInd(d)+"then "+x.block(s.Body.List, k, d+1)+xInd(d)+"else "+x.block(els, k, d+1))
+			return xGuarded(g, "if "+c+xInd(d)+"then "+x.block(thn, k, d+1)+xInd(d)+"else "+x.block(els, k, d+1))
 		}
 		term, _, bind := x.state(s, vs)
-		return xGuarded(g, "bindc (if "+c+xInd(d+1)+"then "+x.block(s.Body.List, "Next "+term, d+2)+
+		return xGuarded(g, "bindc (if "+c+xInd(d+1)+"then "+x.block(thn, "Next "+term, d+2)+
 			xInd(d+1)+"else "+x.block(els, "Next "+term, d+2)+")"+xInd(d)+"("+bind+xInd(d)+rest()+")")
 	case *ast.SwitchStmt:
 		return x.switchStmt(s, rest, d)
@@ -1395,6 +1676,43 @@ func (x *xl) assign(s *ast.AssignStmt, rest func() string, d int) string {
 			return xGuarded(g, "let rd := "+f.Set+" rd "+v+" in"+xInd(d)+rest())
 		}
 	}
+	if len(s.Rhs) == 1 && len(s.Lhs) == 2 && s.Tok == token.DEFINE { // v, ok := e.(T) with the test e.(T) declared as an oracle (bool): ok is bound, v is not a value of the subset
+		if ta, isTA := s.Rhs[0].(*ast.TypeAssertExpr); isTA {
+			if _, isO := x.unit.Oracles[x.src(ta)]; !isO {
+				x.fail(s, "type assertion %s (only as a declared oracle)", x.src(ta))
+			}
+			okv := x.lvalue(s.Lhs[1])
+			if okv == nil {
+				x.fail(s, "type assertion without the ok result")
+			}
+			v := x.expr(ta, &g)
+			return xGuarded(g, "let "+x.declare(okv)+" := "+v+" in"+xInd(d)+rest())
+		}
+	}
+	if len(s.Rhs) == 1 && len(s.Lhs) > 1 { // a, b := F(args) for a declared pure function F
+		if c, ok := s.Rhs[0].(*ast.CallExpr); ok {
+			if _, isF := x.unit.Funcs[x.src(c.Fun)]; isF {
+				v := x.call(c, &g)
+				var ns []string
+				for _, l := range s.Lhs {
+					lv := x.lvalue(l)
+					switch {
+					case lv == nil:
+						ns = append(ns, "_")
+					case s.Tok == token.DEFINE:
+						ns = append(ns, x.declare(lv))
+					default:
+						n, ok := x.names[lv]
+						if !ok {
+							x.fail(l, "%s is not a variable of the translated code", x.src(l))
+						}
+						ns = append(ns, n)
+					}
+				}
+				return xGuarded(g, "let '("+strings.Join(ns, ", ")+") := "+v+" in"+xInd(d)+rest())
+			}
+		}
+	}
 	if len(s.Lhs) != len(s.Rhs) {
 		x.fail(s, "assignment from a multi-valued expression is outside the subset")
 	}
@@ -1404,11 +1722,17 @@ func (x *xl) assign(s *ast.AssignStmt, rest func() string, d int) string {
 				if _, isB := x.info.ObjectOf(id).(*types.Builtin); isB {
 					lv := x.lvalue(s.Lhs[0])
 					a0, isId := c.Args[0].(*ast.Ident)
-					if lv == nil || !isId || x.info.ObjectOf(a0) != lv || c.Ellipsis.IsValid() {
+					if lv == nil || !isId || x.info.ObjectOf(a0) != lv {
 						x.fail(s, "append is in the subset only as  v = append(v, e...)  on one variable")
 					}
 					x.fresh(lv, s)
 					n := x.varName(a0)
+					if c.Ellipsis.IsValid() { // v = append(v, s...): the elements of s are copied
+						if len(c.Args) != 2 {
+							x.fail(s, "append(v, s...) with more arguments")
+						}
+						return xGuarded(g, "let "+n+" := "+n+" ++ "+x.expr(c.Args[1], &g)+" in"+xInd(d)+rest())
+					}
 					var es []string
 					for _, a := range c.Args[1:] {
 						el := x.expr(a, &g)
@@ -1428,7 +1752,11 @@ func (x *xl) assign(s *ast.AssignStmt, rest func() string, d int) string {
 		var v string
 		switch s.Tok {
 		case token.ASSIGN, token.DEFINE:
-			v = x.expr(s.Rhs[i], &g)
+			if x.info.Types[s.Rhs[i]].IsNil() && lv != nil { // nil is the zero value of the variable's type
+				v = x.zero(s, lv.Type())
+			} else {
+				v = x.expr(s.Rhs[i], &g)
+			}
 		default: // x op= e  is  x = x op e  at the type of x
 			op, ok := map[token.Token]token.Token{token.ADD_ASSIGN: token.ADD, token.SUB_ASSIGN: token.SUB, token.MUL_ASSIGN: token.MUL,
 				token.QUO_ASSIGN: token.QUO, token.REM_ASSIGN: token.REM, token.AND_ASSIGN: token.AND, token.OR_ASSIGN: token.OR,
@@ -1440,8 +1768,29 @@ func (x *xl) assign(s *ast.AssignStmt, rest func() string, d int) string {
 			x.info.Types[be] = types.TypeAndValue{Type: x.typeOf(l)}
 			v = x.binary(be, &g)
 		}
+		if sv, f := x.structVar(l); sv != nil && lv != nil { // v.F = e: the record with that field replaced
+			nm := sv.Type().(*types.Named)
+			r := x.record(l, nm)
+			vn, ok := x.names[sv]
+			if !ok || !x.translatable(f.Type()) {
+				x.fail(l, "%s is not a field of a variable of the translated code", x.src(l))
+			}
+			var fs []string
+			for _, ff := range x.recFields(nm.Underlying().(*types.Struct)) {
+				if ff == f {
+					fs = append(fs, r+"_"+ff.Name()+" := "+v)
+				} else {
+					fs = append(fs, r+"_"+ff.Name()+" := "+r+"_"+ff.Name()+" "+vn)
+				}
+			}
+			v = "{| " + strings.Join(fs, "; ") + " |}"
+		}
 		if ie, ok := l.(*ast.IndexExpr); ok && lv != nil { // m[k] = v
-			v = "(go_map_set " + x.mapVar(ie) + " " + x.expr(ie.Index, &g) + " " + v + ")"
+			set := "go_map_set"
+			if m, isMap := x.typeOf(ie.X).Underlying().(*types.Map); isMap && xIsBytes(m.Key()) {
+				set = "go_smap_put"
+			}
+			v = "(" + set + " " + x.mapVar(ie) + " " + x.expr(ie.Index, &g) + " " + v + ")"
 		}
 		if lv == nil {
 			ns = append(ns, "_")
@@ -1569,12 +1918,52 @@ func (x *xl) forStmt(s *ast.ForStmt, rest func() string, d int) string {
 		x.fail(s, "only loops of the form  for i := a; i < n; i++ { ... }  (and range loops over slices) are in the subset")
 	}
 	init, ok := s.Init.(*ast.AssignStmt)
+	if ok && init.Tok == token.DEFINE && len(init.Lhs) == 2 && len(init.Rhs) == 2 { // for i, e := a, n; i < e; i++: e is set once, before the loop
+		if ci, isB := s.Cond.(*ast.BinaryExpr); isB {
+			bound := ci.Y // the bound is the operand that is not the counter (i < e, e > i)
+			if xi, isId := ci.X.(*ast.Ident); isId && x.info.ObjectOf(xi) == x.info.ObjectOf(init.Lhs[1].(*ast.Ident)) {
+				bound = ci.X
+			}
+			if yi, isId := bound.(*ast.Ident); isId && x.info.ObjectOf(yi) == x.info.ObjectOf(init.Lhs[1].(*ast.Ident)) && x.src(init.Lhs[0]) != x.src(init.Lhs[1]) {
+				uses := false // the bound's value must not mention the counter (both are evaluated before either is set)
+				ast.Inspect(init.Rhs[1], func(n ast.Node) bool {
+					if id, isId := n.(*ast.Ident); isId && id.Name == x.src(init.Lhs[0]) {
+						uses = true
+					}
+					return true
+				})
+				if !uses {
+					first := &ast.AssignStmt{Lhs: init.Lhs[1:], TokPos: init.TokPos, Tok: token.DEFINE, Rhs: init.Rhs[1:]}
+					c := *s
+					c.Init = &ast.AssignStmt{Lhs: init.Lhs[:1], TokPos: init.TokPos, Tok: token.DEFINE, Rhs: init.Rhs[:1]}
+					return x.stmt(first, func() string { return x.forStmt(&c, rest, d) }, d)
+				}
+			}
+		}
+	}
 	if !ok || init.Tok != token.DEFINE || len(init.Lhs) != 1 || len(init.Rhs) != 1 {
 		bad()
 	}
 	iv := x.lvalue(init.Lhs[0])
 	cond, ok := s.Cond.(*ast.BinaryExpr)
+	if ok { // normalisation: n > i is i < n, n <= i is i >= n
+		if yi, isId := cond.Y.(*ast.Ident); isId && iv != nil && x.info.ObjectOf(yi) == types.Object(iv) {
+			flip := map[token.Token]token.Token{token.GTR: token.LSS, token.LEQ: token.GEQ}
+			if o, isF := flip[cond.Op]; isF {
+				cond = &ast.BinaryExpr{X: cond.Y, OpPos: cond.OpPos, Op: o, Y: cond.X}
+			}
+		}
+	}
 	post, ok2 := s.Post.(*ast.IncDecStmt)
+	if as, isAs := s.Post.(*ast.AssignStmt); isAs && len(as.Lhs) == 1 && len(as.Rhs) == 1 { // normalisation: i += 1 is i++, i -= 1 is i--
+		if tv := x.info.Types[as.Rhs[0]]; tv.Value != nil && tv.Value.ExactString() == "1" && (as.Tok == token.ADD_ASSIGN || as.Tok == token.SUB_ASSIGN) {
+			tok := token.INC
+			if as.Tok == token.SUB_ASSIGN {
+				tok = token.DEC
+			}
+			post, ok2 = &ast.IncDecStmt{X: as.Lhs[0], TokPos: as.TokPos, Tok: tok}, true
+		}
+	}
 	down := ok && ok2 && cond.Op == token.GEQ && post.Tok == token.DEC // for i := a; i >= n; i-- : i = a, a-1, .., n
 	if iv == nil || !ok || !ok2 || !(down || (cond.Op == token.LSS && post.Tok == token.INC)) {
 		bad()
